@@ -7,6 +7,7 @@ from ..canon import canon, single_assignments
 from ..deg import DegChecker, TOP
 from ..pm import src
 from ..q import FA, call_name, compare_parts, guard_facts, walk_no_nested
+from ..pat import match_stmt, match_expr, find_stmt
 
 TECHNIQUE = "def-use on the returned samples/indices, structural match of the two resampling branches against the statement (R-SIB), shift-degree typing of the three effective-sample-size implementations (R-DEG)"
 
@@ -20,21 +21,24 @@ def run(ctx):
     f = ctx.fn("nessai.posterior:draw_posterior_samples")
     fa = FA(f)
     ns = f.params()[0]
-    # branches
-    samp = fa.find(lambda s: isinstance(s, ast.Assign) and isinstance(s.targets[0], ast.Name) and s.targets[0].id == "samples")
-    idxs = fa.find(lambda s: isinstance(s, ast.Assign) and isinstance(s.targets[0], ast.Name) and s.targets[0].id == "indices")
-    ctx.require(len(samp) == 2 and len(idxs) == 2, "draw_posterior_samples: expected two branches assigning indices and samples")
-    for sid in samp:
-        st = fa.stmt(sid)
-        ctx.ob("R-SIB", "C16.1", f, "posterior samples are elements of the nested samples selected by the returned indices", canon(st.value) == f"{ns}[indices]", f"`{src(st)}`", node=st)
-        prev = [i for i in idxs if fa.dominates(i, sid) and fa.cfg.must_pass(fa.cfg.entry, sid, [i])]
-        ctx.ob("R-ORDER", "C16.1", f, "indices are computed before they are used to select the samples (same branch)", len(prev) >= 1, "")
     rets = [fa.stmt(r) for r in fa.find(lambda s: isinstance(s, ast.Return))]
-    okr = sorted(canon(r.value) for r in rets) == ["(samples, indices)", "samples"]
-    ctx.ob("R-SIB", "C16.1", f, "the function returns exactly those samples (and those indices when asked)", okr, f"{[src(r) for r in rets]}")
+    pair = [match_stmt("return $$S, $$I", r) for r in rets]
+    pair = [b for b in pair if b is not None]
+    ctx.require(len(pair) == 1, "draw_posterior_samples: `return samples, indices` not found")
+    S, I = src(pair[0]["S"]), src(pair[0]["I"])
+    single = [r for r in rets if match_stmt("return $$S", r, {"S": pair[0]["S"]}) is not None]
+    ctx.ob("R-SIB", "C16.1", f, "the function returns exactly the selected samples (and their indices when asked)", len(rets) == 2 and len(single) == 1, f"{[src(r) for r in rets]}")
+    samp = fa.find(lambda s: match_stmt(f"$$S = {ns}[$$I]", s, pair[0]) is not None)
+    idxs = fa.find(lambda s: isinstance(s, ast.Assign) and len(s.targets) == 1 and src(s.targets[0]) == I)
+    ctx.require(len(idxs) == 2, "draw_posterior_samples: expected two branches computing the indices")
+    anyS = fa.find(lambda s: isinstance(s, ast.Assign) and any(src(t) == S for t in s.targets))
+    ctx.ob("R-SIB", "C16.1", f, "on both branches the posterior samples are nested_samples[indices] for the returned indices", len(samp) == 2 and anyS == samp, f"{[fa.text(x) for x in anyS]}")
+    for sid in samp:
+        prev = [i for i in idxs if fa.dominates(i, sid)]
+        ctx.ob("R-ORDER", "C16.1", f, "indices are computed before they are used to select the samples (same branch)", len(prev) >= 1, "")
     ctx.ob("R-ORDER", "C16.1", f, "every returning path has selected samples", fa.cfg.every_exit_path_passes(fa.cfg.entry, samp), "")
 
-    # rejection branch
+    # which branch is which
     rej = mul = None
     for iid in idxs:
         facts = [(src(e), t) for e, t in guard_facts(fa, iid)]
@@ -43,34 +47,27 @@ def run(ctx):
         else:
             mul = iid
     ctx.require(rej is not None and mul is not None, "could not identify the rejection and multinomial branches")
+    W = "log_w"  # parameter of the function
     rst = fa.stmt(rej)
-    v = rst.value
-    okw = isinstance(v, ast.Subscript) and canon(v.slice) == "0" and isinstance(v.value, ast.Call) and call_name(v.value) in ("np.where", "numpy.where") and len(v.value.args) == 1
-    cmp_ = compare_parts(v.value.args[0]) if okw else None
-    side = False
-    if cmp_:
-        l, op, r = cmp_
-        side = (src(l) == "log_w" and src(r) == "log_u" and op in ("Gt", "GtE")) or (src(l) == "log_u" and src(r) == "log_w" and op in ("Lt", "LtE"))
-    ctx.ob("R-SIB", "C16.2", f, "rejection sampling keeps sample i iff its normalised log-weight exceeds log(U_i): indices = where(log_w > log_u)[0]", bool(okw and side), f"`{src(rst)}`", node=rst)
+    b = match_stmt(f"{I} = where({W} > $$u)[0]", rst) or match_stmt(f"{I} = where({W} >= $$u)[0]", rst) or match_stmt(f"{I} = where($$u < {W})[0]", rst) or match_stmt(f"{I} = where($$u <= {W})[0]", rst)
+    ctx.ob("R-SIB", "C16.2", f, "rejection sampling keeps sample i iff its normalised log-weight exceeds log(U_i): indices = where(log_w > log_u)[0]", b is not None, f"`{src(rst)}`", node=rst)
     body = _branch_body(f.node, rst)
-    norm = [s for s in body if isinstance(s, ast.Assign) and isinstance(s.targets[0], ast.Name) and s.targets[0].id == "log_w"]
-    ctx.ob("R-SIB", "C16.2", f, "rejection branch normalises the log-weights by their maximum (max-weight sample always kept, -inf never)", len(norm) == 1 and canon(norm[0].value) in ("log_w - max(log_w)", "log_w - amax(log_w)") and norm[0].lineno < rst.lineno, f"`{src(norm[0]) if norm else None}`")
-    us = [s for s in body if isinstance(s, ast.Assign) and isinstance(s.targets[0], ast.Name) and s.targets[0].id == "log_u"]
-    ctx.ob("R-SIB", "C16.2", f, "one independent uniform per nested sample: log_u = log(rand(nested_samples.size))", len(us) == 1 and canon(us[0].value) in (f"log(random.rand({ns}.size))", f"log(random.uniform(size={ns}.size))", f"log(random.random({ns}.size))"), f"`{src(us[0]) if us else None}`")
-    # multinomial branch
+    norm = [s_ for s_ in body if match_stmt(f"{W} = {W} - max({W})", s_) is not None or match_stmt(f"{W} = {W} - amax({W})", s_) is not None or match_stmt(f"{W} -= max({W})", s_) is not None]
+    ctx.ob("R-SIB", "C16.2", f, "rejection branch normalises the log-weights by their maximum (max-weight sample always kept, -inf never)", len(norm) == 1 and norm[0].lineno < rst.lineno, f"`{src(norm[0]) if norm else None}`")
+    us = [s_ for s_ in body if b is not None and any(match_stmt(p_, s_, {"u": b["u"]}) is not None for p_ in (f"$$u = log(random.rand({ns}.size))", f"$$u = log(random.uniform(size={ns}.size))", f"$$u = log(random.random({ns}.size))"))]
+    ctx.ob("R-SIB", "C16.2", f, "one independent uniform per nested sample: log_u = log(rand(nested_samples.size))", len(us) == 1, f"`{src(us[0]) if us else None}`")
     mst = fa.stmt(mul)
-    c = mst.value
-    kw = {k.arg: k.value for k in c.keywords} if isinstance(c, ast.Call) else {}
-    okm = isinstance(c, ast.Call) and call_name(c) in ("np.random.choice", "numpy.random.choice") and len(c.args) == 1 and canon(c.args[0]) == f"{ns}.size" and canon(kw.get("size", ast.Constant(None))) == "n" and canon(kw.get("p", ast.Constant(None))) == "exp(log_w)" and canon(kw.get("replace", ast.Constant(True))) == "True"
+    okm = match_stmt(f"{I} = random.choice({ns}.size, size=n, p=exp({W}), replace=True)", mst) is not None
     ctx.ob("R-SIB", "C16.2", f, "multinomial resampling: n draws with replacement over all nested samples with p = exp(normalised log-weights)", okm, f"`{src(mst)}`", node=mst)
     body = _branch_body(f.node, mst)
-    norm = [s for s in body if isinstance(s, ast.Assign) and isinstance(s.targets[0], ast.Name) and s.targets[0].id == "log_w"]
-    ctx.ob("R-SIB", "C16.2", f, "multinomial branch normalises the log-weights to sum to one (logsumexp)", len(norm) == 1 and canon(norm[0].value) == "log_w - logsumexp(log_w)" and norm[0].lineno < mst.lineno, f"`{src(norm[0]) if norm else None}`")
-    dn = [s for s in body if isinstance(s, ast.If) and canon(s.test) == "n is None"]
-    okn = len(dn) == 1 and len(dn[0].body) == 1 and isinstance(dn[0].body[0], ast.Assign) and canon(dn[0].body[0].value) == "int(ess)" and not dn[0].orelse and dn[0].lineno < mst.lineno
+    norm = [s_ for s_ in body if match_stmt(f"{W} = {W} - logsumexp({W})", s_) is not None or match_stmt(f"{W} -= logsumexp({W})", s_) is not None]
+    ctx.ob("R-SIB", "C16.2", f, "multinomial branch normalises the log-weights to sum to one (logsumexp)", len(norm) == 1 and norm[0].lineno < mst.lineno, f"`{src(norm[0]) if norm else None}`")
+    dn = [s_ for s_ in body if isinstance(s_, ast.If) and canon(s_.test) == "n is None"]
+    eb = match_stmt("n = int($$e)", dn[0].body[0]) if len(dn) == 1 and len(dn[0].body) == 1 else None
+    okn = eb is not None and not dn[0].orelse and dn[0].lineno < mst.lineno
     ctx.ob("R-SIB", "C16.2", f, "default number of draws is the integer part of the effective sample size", okn, "")
-    ess = [s for s in stmts_in_order(f.node) if isinstance(s, ast.Assign) and isinstance(s.targets[0], ast.Name) and s.targets[0].id == "ess"]
-    ctx.ob("R-SIB", "C16.2", f, "that effective sample size is computed from the posterior log-weights", len(ess) == 1 and canon(ess[0].value) == "effective_sample_size(log_w)", f"`{src(ess[0]) if ess else None}`")
+    ess = [s_ for s_ in stmts_in_order(f.node) if eb is not None and match_stmt(f"$$e = effective_sample_size({W})", s_, eb) is not None]
+    ctx.ob("R-SIB", "C16.2", f, "that effective sample size is computed from the posterior log-weights", len(ess) == 1, f"`{src(ess[0]) if ess else None}`")
     from .C20_reg import _chain_ends_in_raise
 
     ctx.ob("R-SIB", "C16.2", f, "an unknown method is rejected", _chain_ends_in_raise(f.node, "method"), "")
@@ -85,20 +82,24 @@ def run(ctx):
     ]
     for g, var in impls:
         sts = stmts_in_order(g.node)
-        norm = [s for s in sts if (isinstance(s, ast.AugAssign) and isinstance(s.op, ast.Sub) and src(s.target) == var and canon(s.value) == f"logsumexp({var})") or (isinstance(s, ast.Assign) and src(s.targets[0]) == var and canon(s.value) == f"{var} - logsumexp({var})")]
-        kish = [s for s in sts if isinstance(s, ast.Assign) and canon(s.value) == f"exp(-logsumexp(2 * {var}))"]
-        ok = len(norm) == 1 and len(kish) == 1 and norm[0].lineno < kish[0].lineno
-        ctx.ob("R-SIB", "C16.3", g, "Kish effective sample size in log space: exp(-logsumexp(2 (w - logsumexp w)))", ok, f"normalise `{src(norm[0]) if norm else None}` ; `{src(kish[0]) if kish else None}`")
+        kish = [(s_, b) for s_ in sts for b in [match_stmt("$$n = exp(-logsumexp(2 * $$w))", s_)] if b is not None]
+        norm = []
+        if len(kish) == 1:
+            w = kish[0][1]["w"]
+            norm = [s_ for s_ in sts if match_stmt("$$w -= logsumexp($$w)", s_, {"w": w}) is not None or match_stmt("$$w = $$w - logsumexp($$w)", s_, {"w": w}) is not None]
+        ok = len(norm) == 1 and len(kish) == 1 and norm[0].lineno < kish[0][0].lineno
+        ctx.ob("R-SIB", "C16.3", g, "Kish effective sample size in log space: exp(-logsumexp(2 (w - logsumexp w)))", ok, f"normalise `{src(norm[0]) if norm else None}` ; `{src(kish[0][0]) if kish else None}`")
         reports = []
         chk = DegChecker({}, set(), lambda node, msg: reports.append((node, msg)))
         env = {p: Fraction(0) for p in g.params()}
-        env[var] = Fraction(1)
+        if var in env:
+            env[var] = Fraction(1)
         if g.name == "effective_n_posterior_samples":
             chk.fields["self.log_posterior_weights"] = Fraction(1)
         chk.function(g.node, env)
-        d = env.get(kish[0].targets[0].id) if kish and isinstance(kish[0].targets[0], ast.Name) else None
+        d = env.get(src(kish[0][1]["n"])) if kish else None
         bad = [m for n_, m in reports if "exponential" in m or "applies" in m]
-        ctx.ob("R-DEG", "C16.3", g, "the effective sample size does not change when all log-weights are shifted (degree 0, no exp of a shift-dependent value)", d == Fraction(0) and not [m for m in bad if var in m or "logsumexp" in m], f"degree {d}; reports {bad[:2]}")
+        ctx.ob("R-DEG", "C16.3", g, "the effective sample size does not change when all log-weights are shifted (degree 0, no exp of a shift-dependent value)", d == Fraction(0) and not [m for m in bad if "logsumexp" in m], f"degree {d}; reports {bad[:2]}")
     ctx.floor("C16.3", 6)
     ctx.assumptions += ["np.random.choice / np.where semantics; selection frequencies and ESS bounds are statistical / numeric and not decided"]
 
@@ -120,7 +121,7 @@ CLAIM = {
 _P = "nessai/posterior.py"
 _S = "nessai/utils/stats.py"
 MUTANTS = [
-    {"id": "samples-not-from-indices", "file": _P, "old": "        indices = np.where(log_w > log_u)[0]\n        samples = nested_samples[indices]", "new": "        indices = np.where(log_w > log_u)[0]\n        samples = nested_samples[log_w > log_u - 1e-3]", "expect": "selected by the returned indices"},
+    {"id": "samples-not-from-indices", "file": _P, "old": "        indices = np.where(log_w > log_u)[0]\n        samples = nested_samples[indices]", "new": "        indices = np.where(log_w > log_u)[0]\n        samples = nested_samples[log_w > log_u - 1e-3]", "expect": "on both branches the posterior samples"},
     {"id": "rejection-flipped", "file": _P, "old": "np.where(log_w > log_u)[0]", "new": "np.where(log_w < log_u)[0]", "expect": "rejection sampling keeps sample i"},
     {"id": "rejection-sum-normalised", "file": _P, "old": "        log_w = log_w - np.max(log_w)\n", "new": "        log_w = log_w - logsumexp(log_w)\n", "expect": "by their maximum"},
     {"id": "rejection-single-uniform", "file": _P, "old": "np.log(np.random.rand(nested_samples.size))", "new": "np.log(np.random.rand())", "expect": "one independent uniform"},
